@@ -208,7 +208,7 @@ Qed.
 
 (* ------------------------------------------------------------------------ *)
 (* 3. The fragment: literals, variables, fun literals, operators, let,
-      assignment, update, parentheses, if / if-else, list and tuple literals.
+      assignment, update, parentheses, if / if-else, match, list and tuple literals.
       `frag t e` also records what the parser's value_is_used pass guarantees
       (operands / right-hand sides / conditions / items are used; in a block
       only the last expression may be used) and that no PROPER subexpression
@@ -241,13 +241,20 @@ Inductive frag (t : N * N) : expr -> Prop :=
     frag t (EIf m c th (Some eb))
 | F_List m l : fseq t (rev l) -> forallb eused l = true -> frag t (EList m l)
 | F_Tuple m l : fseq t (rev l) -> forallb eused l = true -> frag t (ETuple m l)
+| F_Match m sc cases : frag t sc -> eused sc = true -> epos sc <> t -> fcases t (used m) cases ->
+    frag t (EMatch m sc cases)
 with fseq (t : N * N) : list expr -> Prop :=
 | FS_nil : fseq t []
-| FS_cons x l : frag t x -> epos x <> t -> fseq t l -> fseq t (x :: l).
+| FS_cons x l : frag t x -> epos x <> t -> fseq t l -> fseq t (x :: l)
+with fcases (t : N * N) : bool -> list (ident * (N * N) * option ident * list expr) -> Prop :=
+| FC_nil u : fcases t u []
+| FC_cons u pat body cs : fseq t body -> block_flags u body = true -> fcases t u cs ->
+    fcases t u ((pat, body) :: cs).
 
 Scheme frag_mut := Minimality for frag Sort Prop
-  with fseq_mut := Minimality for fseq Sort Prop.
-Combined Scheme frag_fseq_ind from frag_mut, fseq_mut.
+  with fseq_mut := Minimality for fseq Sort Prop
+  with fcases_mut := Minimality for fcases Sort Prop.
+Combined Scheme frag_fseq_ind from frag_mut, fseq_mut, fcases_mut.
 
 Definition not_paren (e : expr) : Prop := match e with EParen _ _ => False | _ => True end.
 
@@ -837,8 +844,84 @@ Proof.
   - exists f2, W. repeat split; auto; congruence.
 Qed.
 
+(* every case body satisfies the sequence contract and the block flags *)
+Definition ccontract (u : bool) (cases : list (ident * (N * N) * option ident * list expr)) : Prop :=
+  forall body, In body (map snd cases) -> scontract t p body /\ block_flags u body = true.
+
+Lemma match_cases_shape cases : forall f u sp ty idx pl,
+  match match_cases p f u sp ty idx pl cases with
+  | XOk f' pr => exists body g, In body (map snd cases) /\ f' = eval_block g u body /\
+                                todo g = todo f /\ vals g = vals f
+  | XErr _ => True
+  | _ => False
+  end.
+Proof.
+  induction cases as [|[[[pat ppos] binder] body] cs IH]; intros f u sp ty idx pl; cbn [match_cases]; [exact I|].
+  assert (HIT : forall g, todo g = todo f -> vals g = vals f ->
+                exists body0 g0, In body0 (map snd (((pat, ppos, binder), body) :: cs)) /\
+                                 eval_block g u body = eval_block g0 u body0 /\ todo g0 = todo f /\ vals g0 = vals f).
+  { intros g TG VG. exists body, g. split; [now left|auto]. }
+  assert (REC : match match_cases p f u sp ty idx pl cs with
+                | XOk f' pr => exists body0 g, In body0 (map snd (((pat, ppos, binder), body) :: cs)) /\ f' = eval_block g u body0 /\
+                                               todo g = todo f /\ vals g = vals f
+                | XErr _ => True | _ => False end).
+  { specialize (IH f u sp ty idx pl). destruct (match_cases p f u sp ty idx pl cs); auto.
+    destruct IH as (b0 & g & IN & E & TG & VG). exists b0, g. split; [now right|auto]. }
+  destruct (N.eqb pat underscore); [apply HIT; reflexivity|].
+  destruct (get_var p f pat) as [pv|]; [|exact I].
+  destruct pv; try exact I;
+    (destruct (N.eqb ty ty0 && N.eqb idx idx0); [|exact REC]);
+    destruct pl, binder; try exact REC; apply HIT; reflexivity.
+Qed.
+
+Lemma c_match m sc cases :
+  econtract t p sc -> eused sc = true -> epos sc <> t -> ccontract (used m) cases ->
+  econtract t p (EMatch m sc cases).
+Proof.
+  intros Cc Uc Nc CC. apply econtract_unfold. intros HU ss f rest T ST TD.
+  set (e := EMatch m sc cases) in *.
+  destruct (step_stage t p T rest ss f SNot e T ST TD (above_head _ _ _ _ _ ST TD) eq_refl eq_refl I)
+    as [F|(f1 & pr & ss1 & EX & I1 & ST1 & CS1)]; [left; exact F|].
+  cbn [exec e] in EX. inversion EX; subst f1 pr; clear EX.
+  destruct (sub_eval t p sc [(SPart BWill, e)] T rest ss1 _ Cc Nc ST1 eq_refl)
+    as [F|(j2 & ss2 & f2 & I2 & ST2 & TD2 & PU2 & CS2)]; [left; eapply reach_path; eauto|].
+  rewrite Uc in PU2. destruct PU2 as [sv VL]. cbn [vals push_todo set_todo] in VL.
+  pose proof (ipath_trans _ _ _ _ _ _ _ _ I1 I2) as I12.
+  assert (EXS : match exec p (set_todo f2 T) (SPart BWill) e with XCall _ _ | XUnsupported => False | _ => True end).
+  { cbn [exec e]. unfold pop_val. cbn [vals push_todo set_todo]. rewrite VL.
+    destruct sv; try exact I.
+    match goal with |- context [match_cases p ?g ?u ?sp ?ty ?ix ?pl cases] =>
+      pose proof (match_cases_shape cases g u sp ty ix pl) as MS; destruct (match_cases p g u sp ty ix pl cases); auto end. }
+  destruct (step_stage t p T rest ss2 f2 (SPart BWill) e T ST2 TD2 (above_head _ _ _ _ _ ST2 TD2) eq_refl eq_refl EXS)
+    as [F|(f3 & pr & ss3 & EX & I3 & ST3 & CS3)]; [left; eapply reach_path; eauto|].
+  clear EXS. cbn [exec e] in EX. unfold pop_val in EX. cbn [vals push_todo set_todo] in EX. rewrite VL in EX.
+  pose proof (ipath_trans _ _ _ _ _ _ _ _ I12 I3) as I123.
+  destruct sv; try discriminate.
+  match type of EX with match_cases p ?g ?u ?sp ?ty0 ?ix ?pl cases = _ =>
+    pose proof (match_cases_shape cases g u sp ty0 ix pl) as MS; rewrite EX in MS end.
+  destruct MS as (body & g & IN & -> & TG & VG). cbn [todo vals set_vals push_todo set_todo] in TG, VG.
+  destruct (CC body IN) as [Cb BF].
+  pose proof (eval_block_shape g (used m) body) as (ET & EV & _). rewrite TG in ET. rewrite VG in EV.
+  destruct (block_stage body (used m) e T rest ss3 _ (vals f) Cb BF ST3 ET EV)
+    as [F|(j4 & ss4 & f4 & I4 & ST4 & TD4 & PU4 & CS4)]; [left; eapply reach_path; eauto|].
+  apply (conclude t p T rest ss _ ss4 f4 SDone e (vals f) (callers ss)
+           (ipath_trans _ _ _ _ _ _ _ _ I123 I4) ST4 TD4); [congruence|].
+  apply (step_final t p ss4 f4 rest SDone e T (vals f) ST4 TD4 eq_refl); [intros HE; apply (HU HE)|].
+  cbn [exec e]. destruct (pop_block (set_todo f4 T)) as [f5|] eqn:PB; [|exact I].
+  apply pop_block_vals in PB. destruct PB as [PV PT]. cbn [set_todo vals todo] in PV, PT.
+  split; [exact PT|]. rewrite PV. exact PU4.
+Qed.
+
+Lemma cc_nil u : ccontract u [].
+Proof. intros body []. Qed.
+
+Lemma cc_cons u pat body cs : scontract t p body -> block_flags u body = true -> ccontract u cs ->
+  ccontract u ((pat, body) :: cs).
+Proof. intros Cb BF CC b [<-|IN]; [split; assumption|now apply CC]. Qed.
+
 Theorem frag_contracts :
-  (forall e, frag t e -> econtract t p e) /\ (forall L, fseq t L -> scontract t p L).
+  (forall e, frag t e -> econtract t p e) /\ (forall L, fseq t L -> scontract t p L) /\
+  (forall u cases, fcases t u cases -> ccontract u cases).
 Proof.
   apply frag_fseq_ind; intros.
   - apply c_int.
@@ -854,8 +937,11 @@ Proof.
   - apply c_ifelse; assumption.
   - apply c_list; assumption.
   - apply c_tuple; assumption.
+  - apply c_match; assumption.
   - apply s_nil.
   - apply s_cons; assumption.
+  - apply cc_nil.
+  - apply cc_cons; assumption.
 Qed.
 
 End Contracts2.
